@@ -84,6 +84,16 @@ theorem C12_queued_keep_retry_state (cfg : Cfg) (st : State) (n : Nat) (h : cfg.
   rw [List.getElem?_append_left hi]
   simp [ha]
 
+/-- **invocations suspended in `wait_for_event` keep their retry count and recovery budget**: the
+waiter comes back at the same position with the same id and replays the same attempt (event,
+attempts, first-attempt time, last exception, last failure time, recovery counts) -/
+theorem C12_waiting_keep_retry_state (cfg : Cfg) (st : State) (n : Nat) (h : cfg.hasStep n = true)
+    (i : Nat) (w : Waiter) (hw : (st.workers n).waiters[i]? = some w) :
+    ∃ v, ((roundtrip cfg st).workers n).waiters[i]? = some v ∧ v.wid = w.wid ∧ v.replay = w.replay ∧
+      v.resolved = w.resolved ∧ v.timedOut = w.timedOut := by
+  refine ⟨deserWaiter (serWaiter w), ?_, rfl, rfl, rfl, rfl⟩
+  simp [roundtrip_workers, h, deserStep, serStep, hw]
+
 /-- the full statement for in-progress invocations: each comes back with its retry count and
 recovery counts -/
 def C12_statement_inprogress_budget : Prop :=
